@@ -74,7 +74,7 @@ def generate(rng, tier, idx):
         for _ in range(rng.choice([0, 0, 1, 1, 2, 3])):
             faults.append([rng.choice(['drop', 'dup', 'move', 'insert', 'cut', 'nofinal', 'crlf', 'lead-blank', 'trail-blank',
                                        'trail-entry', 'lead-entry', 'undash', 'adddash', 'inject-hdr', 'concat', 'trail-ws',
-                                       'flip-body', 'swap-sig', 'sig-entry', 'long-line', 'long-line', 'long-blank', 'long-blank', 'trail-nul']), rng.randrange(0, 1000), rng.randrange(0, 1000)])
+                                       'flip-body', 'swap-sig', 'sig-entry', 'long-line', 'long-line', 'long-blank', 'long-blank', 'trail-nul', 'lf-to-other', 'lf-to-other']), rng.randrange(0, 1000), rng.randrange(0, 1000)])
         return {'prop': ID, 'mode': 'real', 'order_key': '0', 'payload': payload, 'final_nl': rng.random() < 0.85,
                 'faults': faults, 'not_dash_escaped': rng.random() < 0.15, 'verify': True}
     if rng.random() < 0.75:
@@ -383,6 +383,16 @@ def apply_fault(lines, f, sc):
             j = blanks[a % len(blanks)]
             pad = (19998, 20000, 20100, 40000)[b % 4]
             lines[j] = ' ' * pad + ('DATA evil.txt 4 SHA256 ' + 'e' * 64 if b % 3 else 'X-Header: v')
+    elif k == 'lf-to-other':
+        # the line feed between two signed lines replaced by a character that some line splitters treat as a line end
+        # and the entry parser as a blank
+        body = [j for j, l in enumerate(lines[:-1]) if l.startswith(('DATA ', 'IGNORE ', 'DIST ', 'TIMESTAMP ')) and
+                lines[j + 1].startswith(('DATA ', 'IGNORE ', 'DIST ', 'TIMESTAMP '))]
+        if body:
+            j = body[a % len(body)]
+            ch = ('\x0c', '\x0b', '\x1c', '\x1d', '\x1e', '\x85', '\u2028', '\u2029')[b % 8]
+            lines[j] = lines[j] + ch + lines[j + 1]
+            del lines[j + 1]
     elif k == 'trail-nul':
         body = [j for j, l in enumerate(lines) if l.startswith(('DATA ', 'IGNORE ', 'DIST '))]
         if body:
